@@ -8,8 +8,8 @@
 //!   `U <text>`                 legacy (replays of earlier rounds): totality only
 //!   `S <opts> <globals> <kind> <locals> <exprs>`  shell-level scenario: arithmetic expansions run by the
 //!                              whole shell at top level / in functions (with `typeset` locals) / in subshells
-//! Observation: `ok <value> <sorted final env>` | `error <cause>` (the leaf variant of `Error::cause`, see
-//! `cause_label`) | `PANIC(..)`; for `U`: `total` | `PANIC(..)`;
+//! Observation: `ok <value> <sorted final env>` | `error <cause> <sorted env after the Err>` (the leaf variant of
+//! `Error::cause`, see `cause_label`; the map is not rolled back) | `PANIC(..)`; for `U`: `total` | `PANIC(..)`;
 //! for `S`: the output lines joined by `|`, then `END <final global variables>` or `ERR` (shell exited).
 //! Oracle (independent of the Lean model): for a case with a tree, the tree is evaluated here in exact
 //! `i128` arithmetic by the C rules (error when a result does not fit i64 or is undefined) and compared
@@ -512,7 +512,8 @@ fn run_impl_cfg(text: &str, env: &Env, portable: bool) -> String {
         config.portable = portable;
         match yash_arith::eval_with_config(text, &mut m, config) {
             Ok(v) => format!("ok {} {}", v, show_env(m.iter())),
-            Err(e) => format!("error {}", cause_label(&e.cause)),
+            // the map is mutated in place and not rolled back: what was assigned before the failure is in it
+            Err(e) => format!("error {} {}", cause_label(&e.cause), show_env(m.iter())),
         }
     })
 }
@@ -586,33 +587,48 @@ fn run_shell(text: &str, env: &Env) -> Option<String> {
         script.push_str(&format!("{n}='{v}'\n"));
     }
     script.push_str(&format!("echo \"ok $(({text}))\"\n"));
-    for n in env.keys() {
-        script.push_str(&format!("echo \"{n}=${n}\"\n"));
-    }
-    Some(guarded(|| {
-        let o = yverif::shell::run_script(&script);
+    // the variables are read from the shell's environment after the run — also when the expansion failed and
+    // the (non-interactive) shell exited at it: what was assigned before the failing operation is there
+    let names: Vec<String> = env.keys().cloned().collect();
+    Some(guarded(move || {
+        let (o, fin) = yverif::shell::run_with(
+            yverif::shell::Config::new(&script),
+            |_, _| (),
+            move |e, _| {
+                names
+                    .iter()
+                    .map(|n| {
+                        let v = match e.variables.get(n).and_then(|v| v.value.clone()) {
+                            Some(yash_env::variable::Value::Scalar(x)) => x,
+                            _ => String::new(),
+                        };
+                        format!("{n}={v}")
+                    })
+                    .collect::<Vec<_>>()
+                    .join(",")
+            },
+        );
         if o.stuck {
             return "TIMEOUT".into();
         }
+        let vars = fin.unwrap_or_else(|| "?".into());
         let out = o.stdout_str();
-        let mut lines = out.lines();
-        match lines.next() {
-            Some(l) if l.starts_with("ok ") => {
-                let vars: Vec<String> = lines.map(|l| l.to_string()).collect();
-                format!("{l} {}", vars.join(","))
-            }
-            _ => "error".into(),
+        match out.lines().next() {
+            Some(l) if l.starts_with("ok ") => format!("{l} {vars}"),
+            _ => format!("error {vars}"),
         }
     }))
 }
 
 /// what `run_shell` should print, derived from the observation of the direct call
 fn shell_expectation(obs: &str, env: &Env) -> Option<String> {
-    if class_of(obs) == "error" {
-        return Some("error".into());
-    }
     let mut it = obs.split(' ');
-    let (Some("ok"), Some(v), Some(e)) = (it.next(), it.next(), it.next()) else { return None };
+    let (kind, v, e) = match (it.next(), it.next(), it.next()) {
+        (Some("ok"), Some(v), Some(e)) => ("ok", v, e),
+        // `error <cause> <env after the Err>`
+        (Some("error"), Some(_), Some(e)) => ("error", "", e),
+        _ => return None,
+    };
     let mut fin: Env = BTreeMap::new();
     if e != "-" {
         for item in e.split(',') {
@@ -620,9 +636,9 @@ fn shell_expectation(obs: &str, env: &Env) -> Option<String> {
             fin.insert(dec_str(n)?, dec_str(x)?);
         }
     }
-    // variables created by the expression are not echoed by the script
+    // variables created by the expression are not looked at
     let vars: Vec<String> = env.keys().map(|n| format!("{n}={}", fin.get(n).cloned().unwrap_or_default())).collect();
-    Some(format!("ok {v} {}", vars.join(",")))
+    Some(if kind == "ok" { format!("ok {v} {}", vars.join(",")) } else { format!("error {}", vars.join(",")) })
 }
 
 struct Case {
@@ -770,7 +786,7 @@ fn run_case(c: &Case, with_shell: bool) -> (String, String) {
         // the portable configuration rejects `++`/`--` wherever they stand and changes nothing else
         let oracle = match &c.tree {
             Some(t) if has_incdec(t) => {
-                if obs == "error portable" { "ok".to_string() } else { "FAIL:portable-accepted-incdec".to_string() }
+                if obs.starts_with("error portable ") && obs == format!("error portable {}", show_env(c.env.iter())) { "ok".to_string() } else { "FAIL:portable-accepted-incdec".to_string() }
             }
             Some(_) => {
                 let plain = run_impl(&c.text, &c.env);
@@ -796,7 +812,7 @@ fn run_case(c: &Case, with_shell: bool) -> (String, String) {
             };
             // an in-scope tree without a C value fails in its evaluation (it parses, and not for portability)
             let agrees = if want == "error" {
-                matches!(obs.strip_prefix("error "), Some("value" | "overflow" | "divzero" | "lshiftneg" | "revshift" | "assignvalue"))
+                matches!(obs.split(' ').nth(1), Some("value" | "overflow" | "divzero" | "lshiftneg" | "revshift" | "assignvalue")) && obs.starts_with("error ")
             } else {
                 want == obs
             };
@@ -974,9 +990,13 @@ struct Out {
 
 impl Out {
     fn put(&mut self, c: Case) {
+        self.put_with(c, false)
+    }
+    /// `force_shell`: also run the case through the whole shell (otherwise 2 % of the cases are)
+    fn put_with(&mut self, c: Case, force_shell: bool) {
         let mine = self.idx % self.shard.1 == self.shard.0;
         self.idx += 1;
-        let with_shell = self.shell_rng.chance(1, 50);
+        let with_shell = self.shell_rng.chance(1, 50) || force_shell;
         if mine {
             let (obs, oracle) = run_case(&c, with_shell);
             emit(&c.line, &obs, &oracle);
@@ -1878,7 +1898,9 @@ fn main() {
         for (i, t) in forms.iter().enumerate() {
             let text = render(t, if i % 3 == 0 { 20 } else { 0 }, (i % 3) as u8, &mut r);
             let c = make_case(text, &env, Some(t));
-            out.put(if i % 7 == 6 { make_portable(c) } else { c });
+            // every 3rd one also through the whole shell: the variables after a failing expansion are read from
+            // the shell's environment and must be those of the direct call
+            out.put_with(if i % 7 == 6 { make_portable(c) } else { c }, i % 3 == 1);
         }
     }
 
